@@ -1035,6 +1035,41 @@ func deepCopierRec(fn *ssa.Function, busy map[*ssa.Function]bool) (bool, string)
 
 // dependsOnThroughMem: like dependsOn, but also follows values stored into the variadic
 // argument array of fmt.Sprintf-style calls.
+// structParts: v is a local struct (its cell, or a load of it): the values stored into it, whole
+// or field by field (`key := dedupKey{id: id, hash: h}` … `key.String()`).
+func structParts(v ssa.Value) []ssa.Value {
+	var al *ssa.Alloc
+	switch x := v.(type) {
+	case *ssa.Alloc:
+		al = x
+	case *ssa.UnOp:
+		if x.Op == token.MUL {
+			al, _ = x.X.(*ssa.Alloc)
+		}
+	}
+	if al == nil || al.Referrers() == nil {
+		return nil
+	}
+	var out []ssa.Value
+	for _, ref := range *al.Referrers() {
+		switch x := ref.(type) {
+		case *ssa.Store:
+			if x.Addr == ssa.Value(al) {
+				out = append(out, x.Val)
+			}
+		case *ssa.FieldAddr:
+			if x.Referrers() != nil {
+				for _, r2 := range *x.Referrers() {
+					if st, ok := r2.(*ssa.Store); ok && st.Addr == ssa.Value(x) {
+						out = append(out, st.Val)
+					}
+				}
+			}
+		}
+	}
+	return out
+}
+
 func dependsOnThroughMem(v, target ssa.Value) bool {
 	seen := map[ssa.Value]bool{}
 	var f func(v ssa.Value) bool
@@ -1046,6 +1081,11 @@ func dependsOnThroughMem(v, target ssa.Value) bool {
 			return false
 		}
 		seen[v] = true
+		for _, part := range structParts(v) {
+			if f(part) {
+				return true
+			}
+		}
 		switch x := v.(type) {
 		case *ssa.Slice:
 			// slice of a fresh array: look at the stores into its elements
@@ -1090,6 +1130,11 @@ func dependsOnFieldThroughMem(v ssa.Value, field string) bool {
 		}
 		if fa, ok := v.(*ssa.FieldAddr); ok && fieldOf(fa) != nil && fieldOf(fa).Name() == field {
 			return true
+		}
+		for _, part := range structParts(v) {
+			if f(part) {
+				return true
+			}
 		}
 		if x, ok := v.(*ssa.Slice); ok {
 			if al, ok := x.X.(*ssa.Alloc); ok {
